@@ -1,9 +1,12 @@
 #!/usr/bin/env python3
-"""Writes /verif/MANIFEST.json from tools/manifest_table.json (one entry per claimed property)
+"""Writes /verif/MANIFEST.json from tools/manifest_table.json (general fields), tools/manifest_entries/Cxx.json (one file per claimed property: technique, text, note)
 and properties.jsonl (everything else goes to not_applicable with its reason)."""
 import json, os
 ROOT = os.path.dirname(os.path.dirname(os.path.abspath(__file__)))
 table = json.load(open(os.path.join(ROOT, "tools", "manifest_table.json")))
+import glob
+for f in sorted(glob.glob(os.path.join(ROOT, "tools", "manifest_entries", "C*.json"))):
+    table["claimed"][os.path.basename(f)[:-5]] = json.load(open(f))
 props = [json.loads(l) for l in open(os.path.join(ROOT, "properties.jsonl")) if l.strip()]
 checks, na = [], []
 for p in props:
